@@ -1,5 +1,6 @@
 import OnetVerif.Model.C01
 import OnetVerif.Gen.C01
+import OnetVerif.Gen.C01Send
 /-! Property C01 — the guards of `TreeNodeInstance.SendTo` regenerated from the Go source (`Gen/C01.lean`, written by
 `harness/cmd/go2lean` on every check run from `treenode.go`, `"extract"`): `if to == nil` and `if n.closing` (read
 under the queue mutex).  The model of the failing calls (`Model/C01Send.lean`, `Fault.fails`) lets a call fail when
@@ -30,6 +31,162 @@ theorem c01_gen_sendto_outcome (closing : Bool) (to : Option Nat) (j : Nat) :
       if (Gen.C01.SendTo_nilNode to || Gen.C01.SendTo_closing closing) then ([], 1) else ([j], 0) := by
   cases closing <;> cases to <;>
     simp [Gen.C01.SendTo_nilNode, Gen.C01.SendTo_closing, outcome, Fault.fails, List.zipIdx_cons, List.takeWhile_cons]
+
+end Send
+end C01
+
+/-! ### the send operations themselves, translated (`Gen/C01Send.lean`): `Multicast`, `SendToChildren`, `SendToParent`
+of `treenode.go` with `SendTo` as a callee that appends its destination to a trace (`sent`, every call whether it
+fails or not) and answers `fails node`; errors are `true` values. -/
+namespace C01
+namespace Send
+
+/-- the state of `Multicast`'s loop after the nodes `l`: one `true` per failing call, the trace grown by `l` -/
+theorem multicast_fold (fails : Nat → Bool) (l : List Nat) (errs : List Bool) (sent : List Nat) :
+    l.foldl (fun (st : List Bool × List Nat) node =>
+        ((if fails node then st.1 ++ [true] else st.1), st.2 ++ [node])) (errs, sent) =
+      (errs ++ (l.filter fails).map (fun _ => true), sent ++ l) := by
+  induction l generalizing errs sent with
+  | nil => simp
+  | cons a l ih =>
+    simp only [List.foldl_cons]
+    rw [ih]
+    cases h : fails a <;> simp [List.filter_cons, h]
+
+/-- **`Multicast` calls `SendTo` once for every node handed in, in order, and nothing else; it returns one error per
+failing call** — the translated function, for every list of nodes and every failure pattern -/
+theorem c01_gen_multicast (nodes : List Nat) (fails : Nat → Bool) (sent : List Nat) :
+    Gen.C01Send.Multicast () () nodes fails sent = ((nodes.filter fails).map (fun _ => true), sent ++ nodes) := by
+  unfold Gen.C01Send.Multicast
+  have h := Gen.Rt.loop_next (ρ := List Bool × List Nat)
+    (fun (st : List Bool × List Nat) node => ((if fails node then st.1 ++ [true] else st.1), st.2 ++ [node]))
+    (fun (x : List Bool × List Nat) (node : Nat) =>
+      match x with
+      | (errs, sent) =>
+        let (t1, sent) := (fails node, sent ++ [node])
+        let err : Bool := t1
+        let errs := (if err then (let errs : List Bool := (errs ++ [(true)]); errs) else errs)
+        Gen.Rt.Step.next (errs, sent))
+    nodes ([], sent) (by intro s x _; rfl)
+  simp only at h ⊢
+  rw [h, multicast_fold]
+  simp
+
+/-- … which is the model's outcome for the collecting operations when the failing positions are the positions of
+the failing nodes: the nodes that get the message are the non-failing ones of the trace, the errors are counted -/
+theorem c01_gen_multicast_outcome (nodes : List Nat) (fails : Nat → Bool) (f : Fault)
+    (hf : ∀ k j, nodes[k]? = some j → f.fails k = fails j) :
+    (outcome .all f nodes).1 = (Gen.C01Send.Multicast () () nodes fails []).2.filter (fun j => !fails j) ∧
+    (outcome .all f nodes).2 = (Gen.C01Send.Multicast () () nodes fails []).1.length := by
+  rw [c01_gen_multicast]
+  have key : ∀ (l : List Nat) (n : Nat), (∀ k j, l[k]? = some j → f.fails (n + k) = fails j) →
+      ((l.zipIdx n).filter (fun p => !f.fails p.2)).map (·.1) = l.filter (fun j => !fails j) ∧
+      ((l.zipIdx n).filter (fun p => f.fails p.2)).length = (l.filter fails).length := by
+    intro l
+    induction l with
+    | nil => intro n _; simp
+    | cons a l ih =>
+      intro n h
+      have h0 : f.fails n = fails a := by simpa using h 0 a (by simp)
+      have hr := ih (n + 1) (fun k j hk => by
+        have := h (k + 1) j (by simpa using hk)
+        rwa [show n + (k + 1) = n + 1 + k by omega] at this)
+      simp only [List.zipIdx_cons, List.filter_cons, h0]
+      cases hfa : fails a <;> simp [hfa, hr.1, hr.2]
+  have := key nodes 0 (by simpa using hf)
+  simp only [outcome, okCalls, badCalls, List.nil_append, List.length_map]
+  exact ⟨this.1, this.2⟩
+
+/-- **`SendToChildren` stops at the first failing child**: a leaf calls nothing; otherwise the calls are the children
+up to and including the first failing one, and the error is reported iff there is one -/
+theorem c01_gen_send_to_children (isLeaf : Bool) (children : List Nat) (fails : Nat → Bool) (sent : List Nat) :
+    Gen.C01Send.SendToChildren () () isLeaf children fails sent =
+      if isLeaf then (false, sent)
+      else (children.any fails,
+            sent ++ children.takeWhile (fun j => !fails j) ++ ((children.dropWhile (fun j => !fails j)).take 1)) := by
+  unfold Gen.C01Send.SendToChildren
+  cases isLeaf
+  · simp only [Bool.false_eq_true, if_false]
+    induction children generalizing sent with
+    | nil => simp [Gen.Rt.loop]
+    | cons a l ih =>
+      cases h : fails a
+      · simp only [Gen.Rt.loop, h, Bool.false_eq_true, if_false]
+        rw [ih (sent ++ [a])]
+        simp [List.any_cons, h, List.takeWhile_cons, List.dropWhile_cons]
+      · simp [Gen.Rt.loop, h, List.any_cons, List.takeWhile_cons, List.dropWhile_cons]
+  · simp
+
+/-- `SendToParent`: the root calls nothing; every other node calls `SendTo(parent)` once -/
+theorem c01_gen_send_to_parent (isRoot : Bool) (parent : Nat) (fails : Nat → Bool) (sent : List Nat) :
+    Gen.C01Send.SendToParent () () isRoot parent fails sent =
+      if isRoot then (false, sent) else (fails parent, sent ++ [parent]) := by
+  unfold Gen.C01Send.SendToParent
+  cases isRoot <;> cases h : fails parent <;> simp [h]
+
+end Send
+end C01
+
+namespace C01
+namespace Send
+
+theorem broadcast_fold (self : Nat) (fails : Nat → Bool) (l : List Nat) (errs : List Bool) (sent : List Nat) :
+    l.foldl (fun (st : List Bool × List Nat) node =>
+        if !(node == self) then ((if fails node then st.1 ++ [true] else st.1), st.2 ++ [node]) else st) (errs, sent) =
+      (errs ++ ((l.filter (fun j => j != self)).filter fails).map (fun _ => true),
+       sent ++ l.filter (fun j => j != self)) := by
+  induction l generalizing errs sent with
+  | nil => simp
+  | cons a l ih =>
+    simp only [List.foldl_cons]
+    by_cases ha : a = self
+    · have h1 : (a == self) = true := by simp [ha]
+      have h2 : (a != self) = false := by simp [ha]
+      simp only [h1, Bool.not_true, Bool.false_eq_true, if_false]
+      rw [ih]
+      simp [List.filter_cons, h2]
+    · have h1 : (a == self) = false := by simp [ha]
+      have h2 : (a != self) = true := by simp [ha]
+      simp only [h1, Bool.not_false, if_true]
+      rw [ih]
+      cases h : fails a <;> simp [List.filter_cons, h, h2]
+
+/-- **`Broadcast` calls `SendTo` once for every node of the tree but the sender's own, in the order of `List()`, and
+returns one error per failing call** (translated function; `nodes` is `n.List()`, `self` is `n.TreeNode()`) -/
+theorem c01_gen_broadcast (nodes : List Nat) (self : Nat) (fails : Nat → Bool) (sent : List Nat) :
+    Gen.C01Send.Broadcast () () nodes self fails sent =
+      (((nodes.filter (fun j => j != self)).filter fails).map (fun _ => true),
+       sent ++ nodes.filter (fun j => j != self)) := by
+  unfold Gen.C01Send.Broadcast
+  have h := Gen.Rt.loop_next (ρ := List Bool × List Nat)
+    (fun (st : List Bool × List Nat) node =>
+      if !(node == self) then ((if fails node then st.1 ++ [true] else st.1), st.2 ++ [node]) else st)
+    (fun (x : List Bool × List Nat) (node : Nat) =>
+      match x with
+      | (errs, sent) =>
+        let (errs, sent) := (
+          if (!((node == (self)))) then (
+            let (t1, sent) := (fails node, sent ++ [node])
+            let err : Bool := t1
+            let errs := (if err then (let errs : List Bool := (errs ++ [(true)]); errs) else errs)
+            (errs, sent)
+          ) else (errs, sent))
+        Gen.Rt.Step.next (errs, sent))
+    nodes ([], sent) (by
+      intro s x _
+      obtain ⟨e, t⟩ := s
+      by_cases hx : x = self
+      · subst hx; simp
+      · have : (x == self) = false := by simp [hx]
+        simp [this])
+  simp only at h ⊢
+  rw [h, broadcast_fold]
+  simp
+
+/-- … on a tree of the model: the calls of a broadcast of node `me` are exactly `dests t me .bcast` -/
+theorem c01_gen_broadcast_dests (t : Tree) (me : Nat) (fails : Nat → Bool) :
+    (Gen.C01Send.Broadcast () () (List.range t.n) me fails []).2 = dests t me .bcast := by
+  rw [c01_gen_broadcast]; simp [dests]
 
 end Send
 end C01
